@@ -877,3 +877,79 @@ Fixpoint prun (s : pst) (l : list pop) : pst :=
 Definition hv (c : cmt) (d : nat) : nat :=
   if cmv c && match cmd c with Some x => (x =? d)%nat | None => false end then 1%nat else 0%nat.
 Fixpoint nvalid (d : nat) (l : list cmt) : nat := match l with [] => O | c :: r => (hv c d + nvalid d r)%nat end.
+
+(* ===================================================================================== *)
+(* H. Graph::run binding its targets (GraphData::bind) against releasers of those targets:  *)
+(*    thread 0 = run(): for each requested target the two steps of bind - count it on the   *)
+(*    closure (depend_data_add) and attach the closure to the data (CAS nullptr -> closure, *)
+(*    fails when the data is sealed, then the count is undone) - in the order regenerated   *)
+(*    from the source, then fire(); thread k+1 = whoever publishes target k (a producer or  *)
+(*    an external injector): seal (CAS -> SEALED, reads the attached closure), then         *)
+(*    depend_data_sub if a closure was attached.                                            *)
+(* ===================================================================================== *)
+Inductive bpc := BIdle | BMid | BUndo | BDone.
+Inductive rpc := RIdle | RSub | RDone.
+Record btgt := { batt : bool; bp : bpc; rp : rpc }.
+Record bst := { btargets : list btgt; bcur : nat; bdata : Z; bfin : option Z; bfired : bool;
+                bearly : bool }.       (* ghost: finish(0) was marked while a requested target was not sealed / run() not through *)
+Definition binit (n : nat) : bst :=
+  {| btargets := repeat {| batt := false; bp := BIdle; rp := RIdle |} n; bcur := 0; bdata := closure_data_init; bfin := None;
+     bfired := false; bearly := false |}.
+
+Definition bsealed (t : btgt) : bool := match rp t with RIdle => false | _ => true end.
+Definition all_sealed (l : list btgt) : bool := forallb bsealed l.
+
+(* depend_data_sub on the closure *)
+Definition b_sub (s : bst) (l : list btgt) (cur : nat) (fired : bool) : bst :=
+  let w := bdata s - 1 in
+  let fires := closure_finish_fires w in
+  {| btargets := l; bcur := cur; bdata := w;
+     bfin := if fires then mark (bfin s) 0 else bfin s; bfired := fired;
+     bearly := bearly s || (fires && match bfin s with None => negb (fired && all_sealed l) | Some _ => false end) |}.
+Definition b_set (s : bst) (l : list btgt) (cur : nat) (d : Z) : bst :=
+  {| btargets := l; bcur := cur; bdata := d; bfin := bfin s; bfired := bfired s; bearly := bearly s |}.
+
+Definition bstep (s : bst) (t : nat) : option bst :=
+  match t with
+  | O =>
+    match nth_error (btargets s) (bcur s) with
+    | Some tg =>
+      let upd x := lset (bcur s) x (btargets s) in
+      match bp tg with
+      | BIdle =>
+        if bind_counts_before_attach =? 1
+        then Some (b_set s (upd {| batt := batt tg; bp := BMid; rp := rp tg |}) (bcur s) (bdata s + 1))     (* depend_data_add *)
+        else if bsealed tg then Some (b_set s (upd {| batt := false; bp := BDone; rp := rp tg |}) (S (bcur s)) (bdata s))
+             else Some (b_set s (upd {| batt := true; bp := BMid; rp := rp tg |}) (bcur s) (bdata s))       (* CAS first *)
+      | BMid =>
+        if bind_counts_before_attach =? 1
+        then if bsealed tg
+             then (if bind_undoes_on_failure =? 1 then Some (b_set s (upd {| batt := false; bp := BUndo; rp := rp tg |}) (bcur s) (bdata s))
+                   else Some (b_set s (upd {| batt := false; bp := BDone; rp := rp tg |}) (S (bcur s)) (bdata s)))
+             else Some (b_set s (upd {| batt := true; bp := BDone; rp := rp tg |}) (S (bcur s)) (bdata s))   (* CAS *)
+        else Some (b_set s (upd {| batt := batt tg; bp := BDone; rp := rp tg |}) (S (bcur s)) (bdata s + 1))  (* count afterwards *)
+      | BUndo => Some (b_sub s (upd {| batt := false; bp := BDone; rp := rp tg |}) (S (bcur s)) (bfired s))  (* depend_data_sub *)
+      | BDone => None
+      end
+    | None => if bfired s then None else Some (b_sub s (btargets s) (bcur s) true)                            (* fire() *)
+    end
+  | S k =>
+    match nth_error (btargets s) k with
+    | Some tg =>
+      match rp tg with
+      | RIdle => Some (b_set s (lset k {| batt := batt tg; bp := bp tg; rp := if batt tg then RSub else RDone |} (btargets s)) (bcur s) (bdata s))
+      | RSub => Some (b_sub s (lset k {| batt := batt tg; bp := bp tg; rp := RDone |} (btargets s)) (bcur s) (bfired s))
+      | RDone => None
+      end
+    | None => None
+    end
+  end.
+
+(* what one target contributes to the closure's data count *)
+Definition bcontrib (t : btgt) : Z :=
+  match bp t with
+  | BIdle => 0
+  | BMid | BUndo => 1
+  | BDone => if batt t then match rp t with RDone => 0 | _ => 1 end else 0
+  end.
+Fixpoint bsum (l : list btgt) : Z := match l with [] => 0 | t :: r => bcontrib t + bsum r end.
